@@ -72,10 +72,12 @@ func VerifC14() {
 	}
 
 	// getters on a claims-set that holds v without passing through the setter
-	p1 := &P1Claims{SecurityLifeCycle: &v, CanonicalProfile: Profile1Name}
+	p1 := &P1Claims{CanonicalProfile: Profile1Name}
+	verifPutAlways(&p1.SecurityLifeCycle, &v)
 	_, e1 := p1.GetSecurityLifeCycle()
 	ndAssert("p1-direct-get-iff", (e1 == nil) == valid)
-	p2 := &P2Claims{SecurityLifeCycle: &v, CanonicalProfile: Profile2Name}
+	p2 := &P2Claims{CanonicalProfile: Profile2Name}
+	verifPutAlways(&p2.SecurityLifeCycle, &v)
 	g2, e2 := p2.GetSecurityLifeCycle()
 	ndAssert("p2-direct-get-iff", (e2 == nil) == valid)
 	ndAssert("p2-direct-get-value", !valid || g2 == v)
